@@ -87,6 +87,9 @@ structure Run where
   env : Env
   inv : Nat
   excl : Bool
+  /-- invocations already recorded in the data file by earlier sessions
+  (`run.completed_invocations` after `load_data`) -/
+  done0 : Nat := 0
 deriving DecidableEq, Repr
 
 /-- the (at most two) builds a run requires: run_id.py:192-200 `build_commands` -/
@@ -97,7 +100,8 @@ def Run.builds (r : Run) : List Build :=
 Suite location defaults to the executor's (already absolute) path; the
 environment is the suite's if it sets one, else the executor's, else empty
 (exp_run_details.py:58 `config.get('env', defaults.env)`, default `{}`). -/
-def mkRun (cwd : String) (id : Nat) (e : ExecCfg) (s : SuiteCfg) (inv : Nat) (excl : Bool) : Run :=
+def mkRun (cwd : String) (id : Nat) (e : ExecCfg) (s : SuiteCfg) (inv : Nat) (excl : Bool)
+    (done0 : Nat := 0) : Run :=
   let epath := absPath cwd e.path
   let sloc := match s.location with
     | some l => absPath cwd (some l)
@@ -108,7 +112,7 @@ def mkRun (cwd : String) (id : Nat) (e : ExecCfg) (s : SuiteCfg) (inv : Nat) (ex
     env := match s.env with
       | some v => v
       | none => e.env.getD []
-    inv := inv, excl := excl }
+    inv := inv, excl := excl, done0 := done0 }
 
 /-- result of running a build script -/
 inductive BRes | ok | fail | oserr
@@ -145,9 +149,9 @@ def St.emit (st : St) (e : Ev) : St := { st with trace := st.trace ++ [e] }
 def completed (st : St) (r : Nat) : Nat := st.trace.count (Ev.finish r)
 
 /-- termination_check.py:53-71 restricted to what C13 needs:
-fail-immediately, or all invocations done. -/
+fail-immediately, or all invocations done (counting those of earlier sessions). -/
 def shouldTerminate (st : St) (run : Run) : Bool :=
-  decide (run.id ∈ st.failImm) || decide (run.inv ≤ completed st run.id)
+  decide (run.id ∈ st.failImm) || decide (run.inv ≤ run.done0 + completed st run.id)
 
 /-- executor.py:381-448 `_process_builds` + `_execute_build_cmd`.
 Second component: `FailedBuilding` raised. -/
